@@ -220,6 +220,23 @@ for names in name_sets:
                                   f"(expected n(n+1)/2 = {n * (n + 1) // 2})",
                                   {"pathnames": names, "impl": got}, failing_input_found=True)
 
+# HISTORY: the list returned to one caller is that caller's own; sorting / trimming it in place must not change what the
+# next call with the same arguments returns
+for uo_ in (False, True):
+    for names_ in (ALL_NAMES[:2], ALL_NAMES[:6], ALL_NAMES[:14]):
+        first_ = ut.make_viewnames(list(names_), tfm_unique_only=uo_)
+        pristine_ = list(first_)
+        try:
+            first_.reverse()
+            del first_[::2]
+        except (TypeError, AttributeError):
+            pass                       # an immutable result is fine too
+        again_ = ut.make_viewnames(list(names_), tfm_unique_only=uo_)
+        evaluations += 1
+        if list(again_) != pristine_:
+            chk.violation("viewnames:history", "make_viewnames returns a different list after the caller modified in place the list "
+                          "returned by an earlier call with the same arguments",
+                          dict(pathnames=list(names_), tfm_unique_only=uo_, first_call=pristine_, second_call=list(again_)), True)
 if ut.make_viewnames(ALL_NAMES[:6], tfm_unique_only=True) != [tuple(v.split("-")) for v in ut.IMAGING_MODES]:
     chk.violation("viewnames:imaging-modes", "the 21 unique views of L..TT differ from ut.IMAGING_MODES",
                   {"impl": ut.make_viewnames(ALL_NAMES[:6], tfm_unique_only=True)}, failing_input_found=True)
